@@ -31,28 +31,57 @@ theorem foldl_nostop (step : List PEv × Bool → Grouped → List PEv × Bool) 
   | cons g rest ih =>
     simp only [List.foldl_cons, hstep, ih, List.flatMap_cons, List.append_assoc]
 
+theorem emitAll_fold (fs : FS) (r f : Bool) (l : List Grouped) (acc : List PEv) :
+    l.foldl (emitStep fs r f) (acc, false) = (acc ++ (emitAll fs r f l).1, (emitAll fs r f l).2) := by
+  induction l generalizing acc with
+  | nil => simp [emitAll]
+  | cons g rest ih =>
+    unfold emitAll
+    simp only [List.foldl_cons, emitStep, Bool.false_eq_true, if_false, List.nil_append]
+    cases hst : (emit fs r f g).2 with
+    | false =>
+      rw [ih, ih (acc := (emit fs r f g).1)]
+      simp [List.append_assoc]
+    | true =>
+      have stuck : ∀ (l : List Grouped) (a : List PEv), l.foldl (emitStep fs r f) (a, true) = (a, true) := by
+        intro l; induction l with
+        | nil => intro a; rfl
+        | cons g' l' ih' => intro a; simp only [List.foldl_cons, emitStep, if_true]; exact ih' a
+      rw [stuck, stuck]
+
+theorem emitAll_nil (fs : FS) (r f : Bool) : emitAll fs r f [] = ([], false) := rfl
+
+theorem emitAll_cons (fs : FS) (r f : Bool) (g : Grouped) (gs : List Grouped) :
+    emitAll fs r f (g :: gs) =
+      if (emit fs r f g).2 then ((emit fs r f g).1, true)
+      else ((emit fs r f g).1 ++ (emitAll fs r f gs).1, (emitAll fs r f gs).2) := by
+  conv => lhs; unfold emitAll
+  simp only [List.foldl_cons, emitStep, Bool.false_eq_true, if_false, List.nil_append]
+  cases hst : (emit fs r f g).2 with
+  | false => simp [emitAll_fold]
+  | true =>
+    have stuck : ∀ (l : List Grouped) (a : List PEv), l.foldl (emitStep fs r f) (a, true) = (a, true) := by
+      intro l; induction l with
+      | nil => intro a; rfl
+      | cons g' l' ih' => intro a; simp only [List.foldl_cons, emitStep, if_true]; exact ih' a
+    simp [stuck]
+
+theorem emitAll_append (fs : FS) (r f : Bool) (g1 g2 : List Grouped) (h : (emitAll fs r f g1).2 = false) :
+    emitAll fs r f (g1 ++ g2) = ((emitAll fs r f g1).1 ++ (emitAll fs r f g2).1, (emitAll fs r f g2).2) := by
+  conv => lhs; unfold emitAll
+  rw [List.foldl_append]
+  have h1 := emitAll_fold fs r f g1 []
+  simp only [List.nil_append] at h1
+  rw [h1, h, emitAll_fold]
+
 /-- as long as nothing stops the emitter, the events of a batch are the events of its items in order -/
 theorem emitAll_nostop (fs : FS) (r f : Bool) (gs : List Grouped) (h : ∀ g ∈ gs, (emit fs r f g).2 = false) :
     emitAll fs r f gs = (gs.flatMap (fun g => (emit fs r f g).1), false) := by
-  unfold emitAll
-  have key : ∀ (l : List Grouped) (acc : List PEv), (∀ g ∈ l, (emit fs r f g).2 = false) →
-      l.foldl (fun (acc : List PEv × Bool) g =>
-        if acc.2 then acc else
-        let (e, st) := emit fs r f g
-        (acc.1 ++ e, st)) (acc, false) = (acc ++ l.flatMap (fun g => (emit fs r f g).1), false) := by
-    intro l
-    induction l with
-    | nil => intro acc _; simp
-    | cons g rest ih =>
-      intro acc hl
-      have hg := hl g (List.mem_cons_self ..)
-      simp only [List.foldl_cons, Bool.false_eq_true, if_false]
-      have e1 : emit fs r f g = ((emit fs r f g).1, false) := by rw [← hg]
-      rw [e1]
-      simp only
-      rw [ih _ (fun x hx => hl x (List.mem_cons_of_mem _ hx))]
-      simp [List.flatMap_cons]
-  simpa using key gs [] h
+  induction gs with
+  | nil => rfl
+  | cons g rest ih =>
+    rw [emitAll_cons, h g (List.mem_cons_self ..), ih (fun x hx => h x (List.mem_cons_of_mem _ hx))]
+    simp [List.flatMap_cons]
 
 theorem gsOf_simple (levs : List LEv) (h : ∀ e ∈ levs, e.flag ≠ .movedTo ∧ e.flag ≠ .ignored) :
     gsOf levs = levs.map .one := by
